@@ -2018,10 +2018,17 @@ def text_index_sites(ctx):
                 if ex is not None and layout_for(ctx, gg).is_map(ex):
                     trusted_f.add(n.id)
 
+    gg_lay = layout_for(ctx, cg_func(ctx, "_compute_symbolic_jacobian"))
+
     class _FL(Layout):
         def is_map(self, e, depth=0):
             if isinstance(e, ast.Name) and e.id in trusted_f:
                 return True
+            if not isinstance(e, ast.Name):       # jac.get('sym_to_y_idx', {}) / jac['sym_to_y_idx'] iterated in place
+                k = dict_key_read(Sf, e, fb["jac"])
+                ex = fb["exports"].get(k) if k is not None else None
+                if ex is not None and gg_lay.is_map(ex):
+                    return True
             return super().is_map(e, depth)
     layf = _FL(ctx, Sf)
     for n, t, h in templates_in(fview.node):
@@ -3100,7 +3107,7 @@ def r9_jacobian_parameter_slots(ctx, rid):
     Mj = c18.SlotModel(ctx, jb, Sj)
     pdefs = frozenset({id(jb.node.args)})
     Mj.lists[slot_param] = ("full", ast.Name(id=names_param, ctx=ast.Load()), pdefs)
-    Mj.same_sequence = lambda listname, x: isinstance(x, ast.Name) and x.id == names_param and Mj.defs(x) == pdefs
+    Mj._same_core = lambda listname, x: isinstance(x, ast.Name) and x.id == names_param and Mj.defs(x) == pdefs
     uses = [n for n in walk_shallow(jb.node) if isinstance(n, ast.Name) and isinstance(n.ctx, ast.Load) and n.id == slot_param]
     if not uses:
         ctx.violation(rid, jb0, jb0.node, f"the Jacobian block never reads the slot list `{slot_param}`: parameters are numbered some other "
